@@ -90,9 +90,58 @@ func resolveColumn(v ssa.Value, depth int) (*colInfo, string) {
 			return &colInfo{name: name, required: req, ctor: x, file: x.Call.Args[0]}, ""
 		}
 		return nil, "not a column constructor: " + trimMod(calleeName(x))
+	case *ssa.Index:
+		// an element of a copy of the local column array (`for i, col := range cols`: the array is copied once, after
+		// it was filled)
+		ld, ok := x.X.(*ssa.UnOp)
+		if !ok || ld.Op != token.MUL {
+			return nil, "column array value of unknown origin"
+		}
+		arr, ok := ld.X.(*ssa.Alloc)
+		if !ok {
+			return nil, "column array is not a local array"
+		}
+		at, isArr := deref(arr.Type()).Underlying().(*types.Array)
+		if !isArr {
+			return nil, "column array is not an array"
+		}
+		if k, isConst := constInt(x.Index); isConst {
+			return columnArrayElem(arr, k, nil)
+		}
+		n, isR := rangeIndexConst(x.Index)
+		inside := (isR && n <= at.Len()) || func() bool { ok, _ := isRangeIndexOver(x.Index, x.X); return ok }()
+		if !inside || depth > 2 {
+			return nil, "column array indexed by a non-constant"
+		}
+		var names []string
+		var first *colInfo
+		for kk := int64(0); kk < at.Len(); kk++ {
+			ci, why := columnArrayElem(arr, kk, nil)
+			if ci == nil {
+				return nil, why
+			}
+			if first == nil {
+				first = ci
+			} else if first.required != ci.required {
+				return nil, "column array mixes required and optional columns"
+			}
+			names = append(names, ci.name)
+		}
+		if first == nil {
+			return nil, "empty column array"
+		}
+		return &colInfo{name: strings.Join(names, "|"), required: first.required, ctor: first.ctor, file: first.file}, ""
+	case *ssa.Field:
+		// a column object kept in an unexported field of a struct of the module (a value receiver's field)
+		return resolveColumnField(x.X.Type(), x.Field, depth)
 	case *ssa.UnOp:
 		if x.Op != token.MUL {
 			return nil, "unexpected unary op"
+		}
+		if fa, isFA := x.X.(*ssa.FieldAddr); isFA {
+			if _, isArr := deref(fa.Type()).Underlying().(*types.Array); !isArr {
+				return resolveColumnField(fa.X.Type(), fa.Field, depth)
+			}
 		}
 		switch a := x.X.(type) {
 		case *ssa.Alloc:
@@ -163,66 +212,117 @@ func resolveColumn(v ssa.Value, depth int) (*colInfo, string) {
 				}
 				return &colInfo{name: strings.Join(names, "|"), required: first.required, ctor: first.ctor, file: first.file}, ""
 			}
-			// stores dayColumns[i] = f.RequiredColumn(lit[i]) inside a range over a literal
-			for _, r := range *arr.Referrers() {
-				ia, ok := r.(*ssa.IndexAddr)
-				if !ok || ia == a {
-					continue
-				}
-				for _, r2 := range *ia.Referrers() {
-					st, ok := r2.(*ssa.Store)
-					if !ok || st.Addr != ia {
-						continue
-					}
-					call, ok := st.Val.(*ssa.Call)
-					if !ok {
-						continue
-					}
-					req, isCtor := isColumnCtor(call)
-					if !isCtor {
-						continue
-					}
-					if kk, isC := constInt(ia.Index); isC {
-						if kk != k {
-							continue
-						}
-						if name, ok := constString(call.Call.Args[1]); ok {
-							return &colInfo{name: name, required: req, ctor: call, file: call.Call.Args[0]}, ""
-						}
-						continue
-					}
-					// name = *(&lit[j]) with j the same value as the store index
-					ld, ok := call.Call.Args[1].(*ssa.UnOp)
-					if !ok {
-						continue
-					}
-					la, ok := ld.X.(*ssa.IndexAddr)
-					if !ok || la.Index != ia.Index {
-						continue
-					}
-					if ok, _ := isRangeIndexOver(ia.Index, la.X); !ok {
-						// or a counter that visits 0..n-1 with n the length of the column array
-						n, isCounter := rangeIndexConst(ia.Index)
-						at, isArr := deref(arr.Type()).Underlying().(*types.Array)
-						if !isCounter || !isArr || n != at.Len() {
-							continue
-						}
-					}
-					lit := literalStrings(la.X)
-					if lit == nil || int(k) >= len(lit) {
-						return nil, "column names do not come from a literal list"
-					}
-					// the array must be as long as the literal so that index k is filled by element k
-					if at, ok := deref(arr.Type()).Underlying().(*types.Array); ok && int(at.Len()) != len(lit) {
-						return nil, "column array and name list differ in length"
-					}
-					return &colInfo{name: lit[k], required: req, ctor: call, file: call.Call.Args[0]}, ""
-				}
-			}
-			return nil, "no constructor stored into the column array"
+			return columnArrayElem(arr, k, a)
 		}
 	}
 	return nil, fmt.Sprintf("unrecognised column expression %T", v)
+}
+
+// resolveColumnField: the column kept in field idx of struct type t: every store the module makes into that field
+// (over all instances) must put the same column there.
+func resolveColumnField(t types.Type, idx int, depth int) (*colInfo, string) {
+	if resolveProg == nil {
+		return nil, "column kept in a struct field"
+	}
+	vals, ok := resolveProg.fieldStoresOf(t, idx)
+	if !ok || len(vals) == 0 {
+		return nil, "column kept in a field that code outside the module can set, or that is never set"
+	}
+	var res *colInfo
+	for _, v := range vals {
+		ci, why := resolveColumn(v, depth+1)
+		if ci == nil {
+			return nil, why
+		}
+		if res != nil && res.name != ci.name {
+			return nil, "field holds several columns"
+		}
+		res = ci
+	}
+	return res, ""
+}
+
+// columnArrayElem: the column that element k of the local column array holds: the constructor stored there directly,
+// or by the loop `arr[i] = f.RequiredColumn(names[i])` over a literal list of names.
+func columnArrayElem(arr *ssa.Alloc, k int64, skip *ssa.IndexAddr) (*colInfo, string) {
+	// stores dayColumns[i] = f.RequiredColumn(lit[i]) inside a range over a literal
+	for _, r := range *arr.Referrers() {
+		ia, ok := r.(*ssa.IndexAddr)
+		if !ok || (skip != nil && ia == skip) {
+			continue
+		}
+		for _, r2 := range *ia.Referrers() {
+			st, ok := r2.(*ssa.Store)
+			if !ok || st.Addr != ia {
+				continue
+			}
+			call, ok := st.Val.(*ssa.Call)
+			if !ok {
+				continue
+			}
+			req, isCtor := isColumnCtor(call)
+			if !isCtor {
+				continue
+			}
+			if kk, isC := constInt(ia.Index); isC {
+				if kk != k {
+					continue
+				}
+				if name, ok := constString(call.Call.Args[1]); ok {
+					return &colInfo{name: name, required: req, ctor: call, file: call.Call.Args[0]}, ""
+				}
+				continue
+			}
+			// name = *(&lit[j]) with j the same value as the store index -- or names[j] of an array variable that is
+			// ranged over by value (the array is copied, the copy indexed)
+			var litX, litIdx ssa.Value
+			if ld, ok := call.Call.Args[1].(*ssa.UnOp); ok {
+				if la, ok := ld.X.(*ssa.IndexAddr); ok {
+					litX, litIdx = la.X, la.Index
+				}
+			}
+			if ix, ok := call.Call.Args[1].(*ssa.Index); ok {
+				if ld, ok := ix.X.(*ssa.UnOp); ok && ld.Op == token.MUL {
+					if al, ok := ld.X.(*ssa.Alloc); ok {
+						litX, litIdx = al, ix.Index
+					}
+				}
+			}
+			if litX == nil || litIdx != ia.Index {
+				continue
+			}
+			la := struct{ X ssa.Value }{litX}
+			rangesOver := func() bool {
+				if ok, _ := isRangeIndexOver(ia.Index, la.X); ok {
+					return true
+				}
+				if ix, ok := call.Call.Args[1].(*ssa.Index); ok {
+					if ok, _ := isRangeIndexOver(ia.Index, ix.X); ok {
+						return true
+					}
+				}
+				return false
+			}
+			if !rangesOver() {
+				// or a counter that visits 0..n-1 with n the length of the column array
+				n, isCounter := rangeIndexConst(ia.Index)
+				at, isArr := deref(arr.Type()).Underlying().(*types.Array)
+				if !isCounter || !isArr || n != at.Len() {
+					continue
+				}
+			}
+			lit := literalStrings(la.X)
+			if lit == nil || int(k) >= len(lit) {
+				return nil, "column names do not come from a literal list"
+			}
+			// the array must be as long as the literal so that index k is filled by element k
+			if at, ok := deref(arr.Type()).Underlying().(*types.Array); ok && int(at.Len()) != len(lit) {
+				return nil, "column array and name list differ in length"
+			}
+			return &colInfo{name: lit[k], required: req, ctor: call, file: call.Call.Args[0]}, ""
+		}
+	}
+	return nil, "no constructor stored into the column array"
 }
 
 // literalStrings returns the elements of a []string{...} literal (go/ssa: array alloc, constant-index stores, slice).
@@ -355,6 +455,66 @@ func summariseOptionalFn(c *Ctx, f *ssa.Function, depth int) (*optSummary, strin
 	tb, err := extractTableV(f)
 	if err != nil {
 		return nil, err.Error()
+	}
+	// one reader written in terms of the other's *result* (`if cell := c.Read(); cell != "" { return cell }; return
+	// dflt`): the sibling yields "" for an absent column and for a blank cell, so the `== ""` row is both of those
+	if len(tb.rows) == 2 && depth < 2 {
+		var sib *ssa.Call
+		var eqRow, neRow *trow
+		nCmp := 0
+		for _, blk := range f.Blocks {
+			for _, in := range blk.Instrs {
+				bo, ok := in.(*ssa.BinOp)
+				if !ok || (bo.Op != token.EQL && bo.Op != token.NEQ) {
+					continue
+				}
+				call, isCall := bo.X.(*ssa.Call)
+				ks, isS := constString(bo.Y)
+				if isCall && isS && ks == "" {
+					sib = call
+					nCmp++
+				}
+			}
+		}
+		if nCmp != 1 {
+			sib = nil
+		}
+		for i := range tb.rows {
+			r := &tb.rows[i]
+			if sib == nil || len(r.conds) != 1 || r.conds[0].opaque || r.conds[0].konst != `""` || !strings.HasPrefix(r.conds[0].subj, "call:") {
+				sib = nil
+				break
+			}
+			if r.conds[0].neg {
+				neRow = r
+			} else {
+				eqRow = r
+			}
+		}
+		if sib != nil && eqRow != nil && neRow != nil {
+			cal := sib.Call.StaticCallee()
+			if cal != nil && len(sib.Call.Args) == 1 && sib.Call.Args[0] == ssa.Value(f.Params[0]) && cal.Signature.Recv() != nil && f.Signature.Recv() != nil &&
+				typeName(cal.Signature.Recv().Type()) == typeName(f.Signature.Recv().Type()) && neRow.vals[0] == ssa.Value(sib) {
+				inner, why := summariseOptionalFn(c, cal, depth+1)
+				if inner == nil {
+					return nil, "tests the result of " + cal.Name() + ", which cannot be summarised: " + why
+				}
+				if inner.absent == "empty" && inner.blank == "empty" && inner.value == "cell" {
+					res := ""
+					switch v := eqRow.vals[0].(type) {
+					case *ssa.Parameter:
+						res = "default"
+					case *ssa.Const:
+						if cs, ok := constString(v); ok && cs == "" {
+							res = "empty"
+						}
+					}
+					if res != "" {
+						return &optSummary{table: tb.String() + " => " + inner.table, absent: res, blank: res, value: "cell"}, ""
+					}
+				}
+			}
+		}
 	}
 	s := &optSummary{table: tb.String()}
 	set := func(slot *string, v string) string {
